@@ -708,7 +708,7 @@ func main() {
 	if *tier == "thorough" {
 		scale = 20
 	}
-	nHash, nParse, nCreate := 700*scale, 1500*scale, 45*scale
+	nHash, nParse, nCreate := 820*scale, 1800*scale, 50*scale
 
 	r := &run{
 		rng:      common.NewRng(*seed),
